@@ -448,7 +448,8 @@ class PersistentBlocks(SubCheck):
 def conc_case(draw):
     n = draw(st.integers(2, 3))
     block = [draw(c05.op_strategy(0, i)) for i in range(draw(st.integers(1, 4)))]
-    block = [op for op in block if op[0] not in ('list',)] or [('set', 'x', ('s', 'c0.0'))]
+    # (closing the connection that holds the open transaction is misuse, not a client of the property)
+    block = [op for op in block if op[0] not in ('list', 'close')] or [('set', 'x', ('s', 'c0.0'))]
     progs = [[('block', tuple(block), draw(st.booleans()))]]
     for c in range(1, n):
         progs.append([draw(c05.op_strategy(c, i)) for i in range(draw(st.integers(1, 3)))])
